@@ -11,7 +11,7 @@ echo "== demo with the change (must fail)"
 echo "== demo on /repo (must pass)"
 ( cd /repo && PYTHONPATH=/repo/python timeout 120 /venv/bin/python $wt/seed/demo.py > $out/.demo_without 2>&1; echo "exit=$?" ) | tee $out/.demo_without_rc
 rm -rf /tmp/mut/seed_$id; mkdir -p /tmp/mut/seed_$id; cp -r $wt/python /tmp/mut/seed_$id/python; mkdir -p /tmp/mut/seed_$id/docs; cp -r $wt/docs/spec /tmp/mut/seed_$id/docs/ 2>/dev/null
-for c in $checks; do
+for c in $checks; do [ -f /verif/harness/$c.py ] || continue;
   SX_REPO=/tmp/mut/seed_$id timeout 2400 /verif/check $c > $out/.check_$c.out 2>&1; echo "== check $c against the change: exit=$?" | tee -a $out/.checks
   grep -A1 "^VIOLATION" $out/.check_$c.out | head -2 | cut -c1-400
 done
